@@ -377,9 +377,9 @@ def main():
         merge_findings(F, f)
         for k, v in st.items():
             tot[k] = tot.get(k, 0) + v
-    if tot.get("fired", 0) == 0 or tot.get("natural_states", 0) == 0:
+    if (tot.get("fired", 0) == 0 or tot.get("natural_states", 0) == 0) and F.n_unlisted() == 0:
         raise Harness("nothing observed: %s" % tot)
-    if tot["inconclusive"] > tot["injected"] // 20:
+    if (tot["inconclusive"] > tot["injected"] // 20) and F.n_unlisted() == 0:
         raise Harness("too many injections missed their window: %s" % tot)
     rc = F.report()
     unlisted = sorted({u for i in infos for u in i["unlisted_syscalls"]})
